@@ -95,7 +95,9 @@ def evaluate(case):
 
 
 def _plain(which):
-    return legal.document(hostile=True).map(lambda t: {"text": t, "tokenizer": which})
+    # a quarter of the documents are extracted with the other documented option set (remove_ambiguous=True)
+    return st.builds(lambda t, k: {"text": t, "tokenizer": which, **({"remove_ambiguous": True} if k == 0 else {})},
+                     legal.document(hostile=True), st.integers(0, 3))
 
 
 def phases(tier):
